@@ -109,3 +109,22 @@ pub fn good_truncate(mut s: String) -> String {
     }
     s
 }
+
+/// ERR positive: the error of a fallible function of this crate is turned into a default.
+pub fn fallible_len(input: &[u8]) -> Result<usize, String> {
+    if input.is_empty() {
+        Err("empty".to_string())
+    } else {
+        Ok(input.len())
+    }
+}
+
+pub fn bad_swallow(input: &[u8]) -> Result<usize, String> {
+    let n = fallible_len(input).unwrap_or_default();
+    Ok(n + 1)
+}
+
+pub fn good_swallow(input: &[u8]) -> Result<usize, String> {
+    let n = fallible_len(input)?;
+    Ok(n + 1)
+}
